@@ -4,8 +4,8 @@ transition on the real code, and judging of the recorded executions by Trace_Arc
 import json, os
 import vlib
 
-QUICK_INSTANCES = [("i1", "few"), ("i4", "few")]
-THOROUGH_INSTANCES = [("i1", "all"), ("i2", "few"), ("i3", "few"), ("i4", "all")]
+QUICK_INSTANCES = [("i1", "few"), ("i4", "few"), ("i5", "cyc")]
+THOROUGH_INSTANCES = [("i1", "all"), ("i2", "few"), ("i3", "few"), ("i4", "all"), ("i5", "cyc")]
 
 
 def small_scope(ctx, prefixes, instances=None, max_edges=None):
